@@ -89,24 +89,24 @@ func readCableLabsEbp(data []byte) (ebp *cableLabsEbp, err error) {
 		return nil, gots.ErrNoPayload
 	}
 
-	index := uint8(0)
+	index := 0 // int: a uint8 index wraps on inputs longer than 255 bytes
 	// has reports whether n more bytes can be read at index
-	has := func(n int) bool { return int(index)+n <= len(data) }
+	has := func(n int) bool { return index+n <= len(data) }
 
 	ebp.DataFieldTag = data[index]
-	index += uint8(1)
+	index += 1
 
 	ebp.DataFieldLength = data[index]
-	index += uint8(1)
+	index += 1
 
 	// Check if the data is as advertised
 	if ebp.DataFieldLength > 0 {
 		if len(data) >= 7 {
 			ebp.FormatIdentifier = binary.BigEndian.Uint32(data[index : index+4])
-			index += uint8(4)
+			index += 4
 
 			ebp.DataFlags = data[index]
-			index += uint8(1)
+			index += 1
 		} else {
 			return nil, gots.ErrInvalidEBPLength
 		}
@@ -117,7 +117,7 @@ func readCableLabsEbp(data []byte) (ebp *cableLabsEbp, err error) {
 			return nil, gots.ErrInvalidEBPLength
 		}
 		ebp.ExtensionFlags = data[index]
-		index += uint8(1)
+		index += 1
 	}
 
 	if ebp.SapFlag() {
@@ -125,7 +125,7 @@ func readCableLabsEbp(data []byte) (ebp *cableLabsEbp, err error) {
 			return nil, gots.ErrInvalidEBPLength
 		}
 		ebp.SapType = data[index]
-		index += uint8(1)
+		index += 1
 	}
 
 	if ebp.GroupingFlag() {
@@ -137,7 +137,7 @@ func readCableLabsEbp(data []byte) (ebp *cableLabsEbp, err error) {
 		groupExtFlag = data[index]&0x80 != 0
 		group = data[index] & 0x7F
 		ebp.Grouping = append(ebp.Grouping, group)
-		index += uint8(1)
+		index += 1
 
 		for groupExtFlag {
 			if !has(1) {
@@ -146,7 +146,7 @@ func readCableLabsEbp(data []byte) (ebp *cableLabsEbp, err error) {
 			groupExtFlag = data[index]&0x80 != 0
 			group = data[index] & 0x7F
 			ebp.Grouping = append(ebp.Grouping, group)
-			index += uint8(1)
+			index += 1
 		}
 	}
 
@@ -155,10 +155,10 @@ func readCableLabsEbp(data []byte) (ebp *cableLabsEbp, err error) {
 			return nil, gots.ErrInvalidEBPLength
 		}
 		ebp.TimeSeconds = binary.BigEndian.Uint32(data[index : index+4])
-		index += uint8(4)
+		index += 4
 
 		ebp.TimeFraction = binary.BigEndian.Uint32(data[index : index+4])
-		index += uint8(4)
+		index += 4
 	}
 
 	if ebp.PartitionFlag() {
@@ -166,10 +166,10 @@ func readCableLabsEbp(data []byte) (ebp *cableLabsEbp, err error) {
 			return nil, gots.ErrInvalidEBPLength
 		}
 		ebp.PartitionFlags = data[index]
-		index += uint8(1)
+		index += 1
 	}
 
-	if end := int(ebp.DataFieldLength) + 2; int(index) < end {
+	if end := int(ebp.DataFieldLength) + 2; index < end {
 		if end > len(data) {
 			return nil, gots.ErrInvalidEBPLength
 		}
